@@ -113,4 +113,10 @@ theorem find?_of_mem_nodup {m : List MapEnt} {e : MapEnt} (nd : (ids m).Nodup) (
     · have : x.id ≠ e.id := fun hx => nd.1 (hx ▸ mem_ids.mpr ⟨e, h, rfl⟩)
       simp [this, ih nd.2 h]
 
+theorem eq_of_mem_nodup {m : List MapEnt} {e1 e2 : MapEnt} (nd : (ids m).Nodup)
+    (h1 : e1 ∈ m) (h2 : e2 ∈ m) (h : e1.id = e2.id) : e1 = e2 := by
+  have a := find?_of_mem_nodup nd h1
+  have b := find?_of_mem_nodup nd h2
+  rw [h] at a; rw [a] at b; exact Option.some.inj b
+
 end Rtosc.Midi
